@@ -223,7 +223,7 @@ def run(ctx):
         opts = []
         for _ in range(r.randint(1, 5)):
             keys = [r.choice(KEYS) for _ in range(r.randint(1, 3))]
-            v = r.choice(['v', '1', '', '[a,b]', '[]', '[', ']', '[x', 'a=b', 'a.b', '[p, q]', '[[n]]'])
+            v = r.choice(['v', '1', '', '[a,b]', '[]', '[', ']', '[x', 'a=b', 'a.b', '[p, q]', '[[n]]', 'a,b', 'A small, fast library', 'h,pp', ',', 'x, [y]', ' [a] '])
             x = r.random()
             if x < 0.06:
                 opts.append('.'.join(keys))            # malformed: no '='
